@@ -65,7 +65,8 @@ func dumpTemplateData(d *document.TemplateData) string {
 		cfgDump := string(cfgJSON)
 		fmt.Fprintf(&b, "[%s path=%q data=%d:%x alt=%q title=%q cfg=%s all=%x]", n, im.FilePath, len(im.Data), h[:4], im.AltText, im.Title, cfgDump, all[:4])
 	}
-	fmt.Fprintf(&b, " vars=%v lists=%d conds=%v", d.Variables, len(d.Lists), d.Conditions)
+	listsJSON, _ := json.Marshal(d.Lists)
+	fmt.Fprintf(&b, " vars=%v lists=%d:%s:%s conds=%v", d.Variables, len(d.Lists), listsJSON, fmt.Sprintf("%T", anyItem(d.Lists)), d.Conditions)
 	return b.String()
 }
 
@@ -1495,3 +1496,18 @@ func surfaceStream(prop string, cfg *runCfg, res *Result, r *rng, tmp string) {
 }
 
 type pkgNamedString string
+
+// anyItem: the first item of the first non-empty list in name order (its Go type is part of the data)
+func anyItem(lists map[string][]interface{}) interface{} {
+	var names []string
+	for n := range lists {
+		names = append(names, n)
+	}
+	sort.Strings(names)
+	for _, n := range names {
+		if len(lists[n]) > 0 {
+			return lists[n][0]
+		}
+	}
+	return nil
+}
